@@ -238,6 +238,20 @@ let handle kind c =
      | "shrunk" -> prop1 "size-decreased" "the file became shorter (scenario stopped there)"
      | _ -> ());
     if nuse > 0 then prop1 "use-after-unmap" (Printf.sprintf "%d accesses through a closed mapping" nuse)
+  | "fp" ->
+    (* one process with two goroutines sharing its file with another process: oracle only *)
+    let foreign = next c in let k = next_int c in let first = next_int c in
+    let status = next c in let nuse = next_int c in
+    let extra_a = next_n c in let pers_a = next_n c in let extra_b = next_n c in let pers_b = next_n c in
+    let _steps = next_int c in
+    let where = Printf.sprintf "two goroutines of one process, other process %s; goroutine %s runs %d steps, then the other to completion" foreign (if first = 0 then "B" else "A") k in
+    (match status with
+     | "panic" -> prop "panic" (where ^ ": a panic escaped from Counter.Add (the process is made to crash by what another process did)")
+     | "hang" -> prop "hang" (where ^ ": Counter.Add did not return within the step budget")
+     | _ ->
+       if nuse > 0 then prop "use-after-unmap" (Printf.sprintf "%s: %d accesses through a closed mapping" where nuse);
+       if N.ltb (n_of_int 1) (N.add extra_a pers_a) || N.ltb (n_of_int 2) (N.add extra_b pers_b) then
+         prop "monotone-bounded" (Printf.sprintf "%s: counts invented: A mem %s file %s (added 1), B mem %s file %s (added 2)" where (hex_of_n extra_a) (hex_of_n pers_a) (hex_of_n extra_b) (hex_of_n pers_b)))
   | k -> diff "unknown-case-kind" ~model:k ~impl:"-"
 
 let () = run_file Sys.argv.(1) handle
